@@ -391,7 +391,8 @@ def fault_doc_sx(doc):
         for j, b in enumerate(c.get('badeqs') or []):
             at = min(b['at'], len(c['maths']))
             pos = sum(len(m) for m in c['maths'][:at])
-            lhs = ['higher', Str(b['lhs'][1]), Str(b['lhs'][2]), b['lhs'][3]] if b['lhs'][0] == 'diffn' else \
+            lhs = ['higher', Str(b['lhs'][1]), Str(b['lhs'][2]),
+                   b['lhs'][3] if isinstance(b['lhs'][3], int) else 2] if b['lhs'][0] == 'diffn' else \
                 ['nonvar', c01.expr_sx(b['lhs'][1] if b['lhs'][0] == 'diffx' else b['lhs'])]
             bad.append(((fi[i], at, j), [fi[i], pos, lhs, c01.expr_sx(b['rhs'])]))
     bad = [b for _, b in sorted(bad, key=lambda x: x[0])]
